@@ -4,7 +4,10 @@ from auction_common import impl_exec, impl_exec_multi, nontrivial, classify  # n
 
 SHARDS = {'quick': 1, 'thorough': 16}
 TITLE = 'Final contract is the last bid, its doubling state and its true declarer'
-REQUIRED = ['contract_none_before_end', 'contract_is_spec', 'declarer_is_first_namer', 'first_namer_some', 'first_namer_none', 'passed_out_shape', 'flags_follow_status',
+LEAN_TARGETS = ['BridgeVerif.Props.C03', 'BridgeVerif.Translated.Auction']
+AUDIT_PROPS = ['C03', 'Translated.Auction']
+REQUIRED = ['translated_contract_is_spec', 'Translated.Auction.init_translated', 'Translated.Auction.take_bid_translated', 'Translated.Auction.run_translated', 'Translated.Auction.contract_translated',
+            'contract_none_before_end', 'contract_is_spec', 'declarer_is_first_namer', 'first_namer_some', 'first_namer_none', 'passed_out_shape', 'flags_follow_status',
             'superseded_double_cleared', 'passed_out_iff_no_bid']
 RULE = ('same campaign as C01; the contract is compared after every call (None before the end), as level/denomination, '
         'doubling STATUS (-, X, XX), vulnerability and declarer; branch counters require auctions where both partners / both '
@@ -15,6 +18,9 @@ REQUIRED_COUNTERS = {t: ['both_partners_named_denomination', 'declarer_is_not_la
 TRUSTED = []
 ASSUMPTIONS = ['CPython list/dict semantics']
 
+
+# areas of the pure core whose TRANSLATION (Generated/PyCore.lean) is run next to the real code in this check
+TRANSLATED_AREAS = ('auction',)
 
 def cases(ctx):
     return ac.gen_cases(ctx, 500 if ctx.quick else 1500, 0)
